@@ -73,6 +73,14 @@ def _more_hand_made(P: Any) -> list[tuple[str, list[Any], list[list[Any]], list[
         o(0, "hm_first", []), o(1, "Switch", [V("$S")]), o(2, "Case", [2, 6]), o(3, "Case", [3, 5]), o(4, "Jump", [1]), o(5, "hm_body", []), o(6, "Jump", [2])]], [None]))
     sets.append(("jump-into-case-list-shared-branch", [inf("GENERIC")], [[
         o(0, "Switch", [V("$S")]), o(1, "Case", [1, 5]), o(2, "Case", [2, 6]), o(3, "Case", [3, 5]), o(4, "Jump", [3]), o(5, "Jump", [3]), o(6, "Jump", [0])]], [None]))
+    # every routine kind, targets by number and by name, coroutine names - in a set that can only be written as fallback text
+    sets.append(("fallback-with-every-routine-kind", [inf("COROUTINE"), inf("ACTOR", -1, "ACTOR_NPC_1"), inf("OBJECT", 7), inf("PERFORMER", -1, "PERF_X"), inf("ACTOR", 3), inf("COROUTINE")], [
+        [o(0, "Switch", [V("$S")]), o(1, "Case", [1, 3]), o(2, "Case", [2, 4]), o(3, "Jump", [2]), o(4, "Return", [])],
+        [o(5, "hm_a", []), o(6, "End", [])], [o(7, "hm_b", []), o(8, "Hold", [])], [o(9, "hm_c", []), o(10, "End", [])], [o(11, "hm_d", []), o(12, "End", [])],
+        [o(13, "hm_e", []), o(14, "Return", [])]], ["CORO_FIRST", None, None, None, None, "CORO_LAST"]))
+    # the first op is a jump target only of code that can not be reached; ops that can not be reached follow it
+    sets.append(("entry-label-before-unreachable-ops", [inf("GENERIC")], [[
+        o(0, "Jump", [2]), o(1, "hm_never", []), o(2, "Jump", [4]), o(3, "Jump", [0]), o(4, "End", [])]], [None]))
     sets.append(("irreducible-loop-through-first-op", [inf("GENERIC")], [[
         o(0, "hm_top", []), o(1, "Branch", [V("$A"), 1, 4]), o(2, "hm_x", []), o(3, "Jump", [5]), o(4, "hm_y", []), o(5, "hm_z", []), o(6, "Branch", [V("$B"), 2, 4]),
         o(7, "Branch", [V("$C"), 3, 0]), o(8, "Jump", [2])]], [None]))
